@@ -89,7 +89,7 @@ PROPS = {
     "C08": {
         "runs": [
             {"cmd": "core-pp", "mode": "core", "cases": {"quick": 1200, "thorough": 40000}, "shards": {"quick": 8, "thorough": 16}},
-            # PENDING-MIRROR-UPDATE {"cmd": "core-mp", "mode": "core", "cases": {"quick": 800, "thorough": 30000}, "shards": {"quick": 8, "thorough": 16}},
+            {"cmd": "core-mp", "mode": "core", "cases": {"quick": 800, "thorough": 30000}, "shards": {"quick": 8, "thorough": 16}},
         ],
         "rule": "cases = random key sets (0..60 keys, clustered prefixes at page/byte boundaries and depth 246..255) x 4 query keys x (honest proof + 3 mutants: sibling flip/drop/add/swap/zero/truncate, terminal key/value/kind, wrong root, other key, short key slice, >256 siblings) with confirm_value/confirm_nonexistence queries against the truth set, plus 3 verify_update cases per set (honest and 7 malformed shapes). non-trivial & distinct = distinct mutated-proof or update lines (hash of the protocol line).",
         "trusted_base": HASH_TB,
@@ -98,8 +98,8 @@ PROPS = {
     "C18": {
         "runs": [
             {"cmd": "core-pp", "mode": "core", "cases": {"quick": 1200, "thorough": 40000}, "shards": {"quick": 8, "thorough": 16}},
-            # PENDING-MIRROR-UPDATE {"cmd": "core-mp", "mode": "core", "cases": {"quick": 800, "thorough": 30000}, "shards": {"quick": 8, "thorough": 16}},
-            # PENDING-MIRROR-UPDATE {"cmd": "core-mp-corpus", "mode": "core", "cases": {"quick": 1, "thorough": 1}, "corpus": True},
+            {"cmd": "core-mp", "mode": "core", "cases": {"quick": 800, "thorough": 30000}, "shards": {"quick": 8, "thorough": 16}},
+            {"cmd": "core-mp-corpus", "mode": "core", "cases": {"quick": 1, "thorough": 1}, "corpus": True},
         ],
         "rule": "same adversarial stream as C08 plus the malformed multi-proof stream of C07 and the corpus of the six former verify_range panic inputs (harness/corpus/core-mp-verify-panics.txt, expected verdicts InvalidDepth / TooFewSiblings / PathPrefixOfAnother), every call under catch_unwind; the model must predict ok / which error / panic for every line; any panic of the real verifier is an oracle failure `C18 PANIC in ...`. non-trivial = mutated or malformed object.",
         "trusted_base": HASH_TB,
@@ -176,5 +176,13 @@ PROPS = {
         "runs": DB_SCN(["witness-many-workers"]) + [DB("kv", 200, 2000, nops=14), DB("overlay", 80, 800, nops=14), DB("kv", 6, 60, nops=14, scale=60, shards_q=6), DB("general", 60, 600, nops=14)],
         "rule": DB_RULE + " C06: half of all sessions (all in the directed scenario) run with WitnessMode::read_write(); the real witness is (i) verified path by path against the base root, every read confirmed with the real verifier and compared with the session's view, every write matched against the batch, and replayed with the real verify_update against the reported new root (oracle), and (ii) canonicalised and compared byte-for-byte with the Lean witnessSpec. Batches mix reads, writes, read-then-writes, deletes of absent keys, several keys per terminal, 1..64 workers.",
         "trusted_base": API_TB, "assumptions": API_ASSUME,
+    },
+    "C20": {
+        "runs": [{"cmd": "flock", "cases": {"quick": 2, "thorough": 10}, "shards": {"quick": 4, "thorough": 16}, "per_shard_cases": True}],
+        "rule": "cases = per case: a 6-thread creation race on an absent / empty directory (at most one winner), then with the winner's handle alive: 3 opens from the same process, a 6-thread race and an open from a second process (all must be refused) with a fingerprint (length + hash of every file) of the directory before and after, an strace of a refused open from another process (only the directory and .lock may be opened before the failing flock; no write / pwrite / ftruncate / unlink / rename / mkdir / fallocate), then drop and reopen at once (fingerprint unchanged across drop + reopen: no background writer after drop returned), a handle poisoned by an injected I/O error dropped and reopened, and a holder process killed with SIGKILL followed by a reopen. distinct & non-trivial = (seed, case) pairs of creation races and of refused-open groups.",
+        "trusted_base": ["OS semantics of flock(LOCK_EX|LOCK_NB): atomic, per open file description, released at process death; O_CREAT on an existing .lock does not modify it",
+                         "protocol model Api/Flock.lean is hand-written from Store::open / Flock / Drop for Shared"],
+        "assumptions": ["thread and process timings are sampled, not enumerated", "a creation race with NO winner (documented TOCTOU in Store::open) is recorded, not failed: the property bounds the number of live handles from above",
+                        "reopen after drop is retried for up to 3 s (the lock is released by whichever thread drops the last reference to the store); the number of retries needed is reported"],
     },
 }
